@@ -11,6 +11,11 @@ class DechunkError(Exception):
     """
 
 
+class ContentLengthError(Exception):
+    """Raised when the content-length header is not a number.
+    """
+
+
 class DecompressError(Exception):
     """Raised when could not de-compress stream.
     """
@@ -122,15 +127,15 @@ class HTTPReader:
             if cl_string:
                 try:
                     content_length = int(cl_string)
-                    http_body = http_message.rfile.read(content_length)
-                except TypeError:
-                    http_body = http_message.rfile.read()
+                except ValueError as err:
+                    raise ContentLengthError(f'invalid content-length "{cl_string}"') from err
+                http_body = http_message.rfile.read(content_length)
 
         # if we get compressed content then we check against server setting
         # if it matches continue and decompress
         # if current server setting is any, use whatever client has provided in content-encoding header
         actual_enc = http_message.headers.get('content-encoding')
-        if actual_enc:
+        if actual_enc and http_body is not None:
             supported_encs = supported_encodings or CompressionHandler.available_encodings
             if actual_enc in supported_encs:
                 http_body = CompressionHandler.decompress_payload(actual_enc, http_body)
@@ -151,9 +156,9 @@ class HTTPReader:
         if cl_string:
             try:
                 content_length = int(cl_string)
-                http_body = http_response.read(content_length)
-            except TypeError:
-                http_body = http_response.read()
+            except ValueError as err:
+                raise ContentLengthError(f'invalid content-length "{cl_string}"') from err
+            http_body = http_response.read(content_length)
         if http_body is None:
             transfer_encoding = http_response.getheader('transfer-encoding')
             if transfer_encoding is not None and transfer_encoding.lower() == 'chunked':
